@@ -776,8 +776,18 @@ func longBody(n int) func(c *mc.Ctx, item int) mc.Verdict {
 	}
 	return func(c *mc.Ctx, item int) mc.Verdict {
 		letter, fi := item/len(formats), item%len(formats)
-		p := build(letter, n)
 		what := func() string { return fmt.Sprintf("%d x %s, format %s", n, letterName(letter), formatNames[fi]) }
+		full := n
+		if !shimAvailable {
+			// without the shim the charstring can only be obtained from a
+			// written font, so the 64 KB limit applies to the exact check too
+			c100, err := encodeGlyph(build(letter, 100).g)
+			if err != nil {
+				return mc.Fail("C20:drift:encode-error", what()+": "+err.Error())
+			}
+			full = min(n, 100*64000/len(c100))
+		}
+		p := build(letter, full)
 		code, err := encodeGlyph(p.g)
 		if err != nil {
 			return mc.Fail("C20:drift:encode-error", what()+": "+err.Error())
@@ -790,13 +800,13 @@ func longBody(n int) func(c *mc.Ctx, item int) mc.Verdict {
 				v.Render = what()
 				return *v
 			}
-			c.Steps(n)
+			c.Steps(full)
 			maxErr = res.maxErr
 			class = errClass(maxErr)
 		}
-		m := n
+		m := full
 		if len(code) > 65000 {
-			m = n * 64000 / len(code)
+			m = full * 64000 / len(code)
 			p = build(letter, m)
 		}
 		// public path: Write -> Read, every coordinate within the bound
